@@ -253,3 +253,10 @@ package errutil
 //@   props C03 C12
 //@   ensures len(result) == 1 && result[0] == strip(redactOf(self.message))
 //@   ensures[C03] safeSeq(result)
+
+// C09: a leaf hands its message to the printer and has nothing to continue with
+//@ method (*leafError).SafeFormatError
+//@   props C09
+//@   requires p != nil
+//@   ensures result == nil
+//@   ensures len($pargs) == len(old($pargs)) + 1 && $pargs[len(old($pargs))] == ifaceOf(self.msg)
